@@ -4,7 +4,6 @@ use super::common::random_cfg;
 use crate::drive::{value_bytes, Cfg, Class, Driver, Mismatch, S_ALL_QUERIES};
 use crate::evidence::{Meta, Shard};
 use crate::ops::{gen_history, history_json, history_short, Op, Profile};
-use crate::parse;
 use crate::rng::{fnv, Rng};
 use crate::runner::{block_on_catch, new_dir, rm_dir, Ctx, Plan};
 use pearl::verif::tap;
